@@ -4,8 +4,8 @@ import json
 META = {
     "level": "model_checking",
     "technique": "TLA+ transcription of dns::Transport::do_dial model-checked over all small record graphs (bounds, suffix filter, termination, 3 canaries); TLC-enumerated record graphs + hand-written stress graphs + seeded random graphs served by a scripted resolver to the REAL transport (verif::with_resolver) around a recording inner transport; every run validated by TLC against a property-level trace spec with the real limits 32/16",
-    "text": "TLC explores do_dial's worklist algorithm (scaled limits 3/2/2) over every record graph of 2 /dnsaddr names, 1 host name and 1-2 addresses (self and mutual cycles, foreign-suffix TXT entries, empty and error answers) with an inner transport that refuses, fails or succeeds, and proves lookups/attempts bounded, only resolved and suffix-matching addresses dialed, no panic, termination; three canaries (limit off by one, suffix filter removed, expect on empty answer) are rejected. The same graphs (TLC-enumerated), stress graphs that exceed the real limits (40-deep chains, cycles, 20x3 fan-out, binary /dnsaddr trees, 40-record answers, several DNS components, empty/CNAME-only/wrong-family/garbage answers for all four query types) and seeded random graphs are served by a scripted hickory Resolver to the real libp2p_dns::Transport::dial; TLC validates each recorded run: <=32 lookups, <=16 inner dials accepted, every address handed to the inner transport is free of DNS components and derivable from the dialed address using only answers actually served (for /dnsaddr only TXT addresses that end with the remaining suffix), the dial completes, no panic.",
-    "note": "An inner dial the inner transport refuses synchronously (MultiaddrNotSupported) is not counted as an attempt (as documented in the code). Resolver futures are immediately ready.",
+    "text": "TLC explores do_dial's worklist algorithm (scaled limits 3/2/2) over every record graph of 2 /dnsaddr names, 1 host name and 1-2 addresses (self and mutual cycles, foreign-suffix TXT entries, empty and error answers) with an inner transport that refuses, fails or succeeds, and proves lookups/attempts bounded, only resolved and suffix-matching addresses dialed, no panic, termination; three canaries (limit off by one, suffix filter removed, expect on empty answer) are rejected. The same graphs (TLC-enumerated), stress graphs that exceed the real limits (40-deep chains, cycles, 20x3 fan-out, binary /dnsaddr trees, 40-record answers, several DNS components, empty/CNAME-only/wrong-family/garbage answers for all four query types, /dnsaddr cycles through 0-3 /dns, 0-2 /dns4 and 0-1 /dns6 names without address records so that the lookup counter passes through every residue, TXT entries that are a bare /dnsaddr or host indirection without any suffix) and seeded random graphs are served by a scripted hickory Resolver to the real libp2p_dns::Transport::dial; TLC validates each recorded run: <=32 lookups, <=16 inner dials accepted, every address handed to the inner transport is free of DNS components and derivable from the dialed address using only answers actually served (for /dnsaddr only TXT addresses that end with the remaining suffix), the dial completes, no panic.",
+    "note": "The scripted resolver fails every lookup after the 120th of a dial so that a dial with unbounded lookups still ends (and is then rejected for its lookup count). An inner dial the inner transport refuses synchronously (MultiaddrNotSupported) is not counted as an attempt (as documented in the code). Resolver futures are immediately ready.",
     "design_ref": "6/C23",
 }
 
